@@ -194,15 +194,39 @@ func refKey(fn *ssa.Function) string {
 	if par == nil {
 		return fn.String()
 	}
-	sig := fn.Signature.String()
+	sig := sigTypes(fn)
 	k := 0
 	for _, a := range par.AnonFuncs {
 		if a == fn {
 			break
 		}
-		if a.Signature.String() == sig {
+		if sigTypes(a) == sig {
 			k++
 		}
 	}
 	return refKey(par) + "#" + sig + "#" + string(rune('0'+k%10)) + string(rune('0'+(k/10)%10))
+}
+
+// sigTypes renders a signature by its parameter and result types only (names are what the
+// table is there to recover).
+func sigTypes(fn *ssa.Function) string {
+	var sb strings.Builder
+	sb.WriteString("func(")
+	ps := fn.Signature.Params()
+	for i := 0; i < ps.Len(); i++ {
+		if i > 0 {
+			sb.WriteString(",")
+		}
+		sb.WriteString(ps.At(i).Type().String())
+	}
+	sb.WriteString(")(")
+	rs := fn.Signature.Results()
+	for i := 0; i < rs.Len(); i++ {
+		if i > 0 {
+			sb.WriteString(",")
+		}
+		sb.WriteString(rs.At(i).Type().String())
+	}
+	sb.WriteString(")")
+	return sb.String()
 }
